@@ -471,11 +471,15 @@ func genSubjectHandlerCase(t *rapid.T, family string) caseSpec {
 		}}
 		c.Ctx = append([]config.Mechanism{pre}, c.Ctx...)
 
+		// the ways a template can get at the outputs
+		tpl := rapid.SampledFrom([]string{`{{ .Outputs.pre.echo }}`, `{{ index .Outputs "pre" "echo" }}`, `{{ index . "Outputs" "pre" "echo" }}`,
+			`{{ with $o := .Outputs }}{{ $o.pre.echo }}{{ end }}`, `{{ $all := . }}{{ $all.Outputs.pre.echo }}`}).Draw(t, "outputTemplate")
+
 		ep := pc["endpoint"].(map[string]any)
 		if rapid.Bool().Draw(t, "outputInURL") {
-			ep["url"] = remote.URL() + remotePath + "/{{ .Outputs.pre.echo }}"
+			ep["url"] = remote.URL() + remotePath + "/" + tpl
 		} else {
-			ep["headers"].(map[string]any)["X-From-Output"] = "{{ .Outputs.pre.echo }}"
+			ep["headers"].(map[string]any)["X-From-Output"] = tpl
 		}
 
 		preRef := config.MechanismConfig{"contextualizer": "pre"}
